@@ -60,6 +60,10 @@ class GenericSystemRegistry(
         #: Maps dimensionality (UnitsContainer) to Dimensionality (UnitsContainer)
         self._base_units_cache: dict[UnitsContainerT, UnitsContainerT] = {}
 
+        #: Unit cache (self._cache) the memo above was filled under. Contexts that
+        #: redefine units swap self._cache; the memo is only valid for one of them.
+        self._base_units_cache_owner: Any = None
+
         self._default_system_name: str | None = system
 
     def _init_dynamic_classes(self) -> None:
@@ -184,6 +188,10 @@ class GenericSystemRegistry(
     ):
         if system is None:
             system = self._default_system_name
+
+        if self._base_units_cache_owner is not self._cache:
+            self._base_units_cache = {}
+            self._base_units_cache_owner = self._cache
 
         # The cache is only done for check_nonmult=True and the current system.
         if (
